@@ -319,8 +319,8 @@ pub fn tile_probe_coords(w: u32, h: u32) -> Vec<(u32, u32)> {
             v.push((x, y));
         }
     }
-    let xs = [0u32, 1, w.wrapping_sub(1), w, w + 1, 65535, 65536, 0x7fff_ffff];
-    let ys = [0u32, 1, h.wrapping_sub(1), h, h + 1, 65535, 65536, 0x7fff_ffff];
+    let xs = [0u32, 1, w.wrapping_sub(1), w, w + 1, 65535, 65536, 0x7fff_ffff, 0x8000_0000, 0xffff_ffff];
+    let ys = [0u32, 1, h.wrapping_sub(1), h, h + 1, 65535, 65536, 0x7fff_ffff, 0x8000_0000, 0xffff_ffff];
     for x in xs {
         for y in ys {
             v.push((x, y));
